@@ -1,0 +1,26 @@
+//go:build verif
+
+package main
+
+import (
+	"bufio"
+	"encoding/hex"
+	"fmt"
+	"strings"
+	"unicode/utf8"
+)
+
+func init() { commands["utf8"] = cmdUtf8 }
+
+// cmdUtf8 prints utf8.DecodeRune(rune, size) for every hex-encoded line.
+func cmdUtf8(in *bufio.Reader, out *bufio.Writer, _ []string) {
+	sc := bufio.NewScanner(in)
+	for sc.Scan() {
+		b, err := hex.DecodeString(strings.TrimSpace(sc.Text()))
+		if err != nil {
+			panic(err)
+		}
+		r, sz := utf8.DecodeRune(b)
+		fmt.Fprintf(out, "%d %d\n", r, sz)
+	}
+}
